@@ -229,11 +229,9 @@ def attr_from_param(prog: Program, cls, param: str):
     """the attribute __init__ assigns directly from the constructor parameter `param`"""
     init = prog.lookup_method(cls, "__init__")
     if init is not None:
-        for n in ast.walk(init.node):
-            if isinstance(n, ast.Assign) and isinstance(n.value, ast.Name) and n.value.id == param:
-                for t in n.targets:
-                    if _self_attr(t):
-                        return _self_attr(t)
+        for t, v in util.simple_assignments(init.node):
+            if isinstance(v, ast.Name) and v.id == param and _self_attr(t):
+                return _self_attr(t)
     raise Undecided("%s.__init__ stores its parameter %r in no attribute" % (cls.qual, param), cls.node)
 
 
@@ -241,11 +239,9 @@ def attr_from_expr(prog: Program, cls, pred, what):
     """the attribute __init__ assigns from an expression satisfying pred(value node, source text)"""
     init = prog.lookup_method(cls, "__init__")
     if init is not None:
-        for n in ast.walk(init.node):
-            if isinstance(n, ast.Assign) and pred(n.value, util.unparse(n.value)):
-                for t in n.targets:
-                    if _self_attr(t):
-                        return _self_attr(t)
+        for t, v in util.simple_assignments(init.node):
+            if pred(v, util.unparse(v)) and _self_attr(t):
+                return _self_attr(t)
     raise Undecided("%s.__init__ sets no %s" % (cls.qual, what), cls.node)
 
 
